@@ -196,11 +196,32 @@ def run(ctx):
     return out
 
 
+def ranking(h):
+    """How the header's sort order ranks the names of its contig list plus two strangers, observed through the keys it
+    builds (None: the order builds no keys)."""
+    from .. import sortcases as SC
+    so = h.sort_order()
+    try:
+        keyf = so.sort_key()
+    except NotImplementedError:
+        return None
+    names = [str(c) for c in (h.contigs() or [])] + ["chrZ", "chrQ", "chr1"]
+    keyed, unknown = [], []
+    for c in dict.fromkeys(names):
+        try:
+            keyed.append((keyf(SC.untyped_record("T", "N", c, "1", "1")), c))
+        except ValueError:
+            unknown.append(c)
+    import functools
+    keyed.sort(key=functools.cmp_to_key(lambda a, b: -1 if a[0] < b[0] else (1 if b[0] < a[0] else 0)))
+    return {"order": [c for _k, c in keyed], "unknown": sorted(unknown)}
+
+
 def snapshot(h):
     so = h.sort_order()
     return {"str": str(h), "keys": list(h), "errors": [(e.tpe.name, e.line_number) if hasattr(e, "tpe") else repr(e) for e in h.validation_errors],
             "version": h.version(), "annotation": h.annotation(), "contigs": copy.deepcopy(h.contigs()),
-            "sort": so.name(), "sort_contigs": list(getattr(so, "_contigs", []) or [])}
+            "sort": so.name(), "sort_contigs": list(getattr(so, "_contigs", []) or []), "ranking": ranking(h)}
 
 
 MUTATIONS = ["set", "del", "inplace-value", "inplace-key", "contigs-append", "errors", "sort-contigs"]
@@ -217,6 +238,11 @@ def eval_derived(lines, args, next_step):
     from maflib.reader import MafReader
     from maflib.sort_order import Coordinate
     reader = MafReader(lines=lines + ["a\tb"])
+    if "keyed-before" in args:
+        try:
+            reader.header().sort_order().sort_key()        # the reader's order has been asked for its key function (iterating does that)
+        except NotImplementedError:
+            pass
     before = snapshot(reader.header())
     kw = {}
     if "version" in args:
@@ -261,9 +287,21 @@ def eval_derived(lines, args, next_step):
             pass
     after = snapshot(reader.header())
     failures = []
+    # the derived header's accessors reflect the derived header's own pragmas: its order ranks by its own contig list
+    try:
+        dr, dc = ranking(d), d.contigs()
+    except Exception:  # noqa
+        dr, dc = None, None
+    if dr is not None and dc and all(isinstance(c, str) for c in dc) and len(set(dc)) == len(dc):
+        want = [c for c in dc]
+        got = [c for c in dr["order"] if c in dc]
+        if got != want and d.sort_order().name() in ("Coordinate", "BarcodesAndCoordinate") and list(getattr(d.sort_order(), "_contigs", []) or []) == list(dc):
+            failures.append({"what": "the derived header's sort order does not rank chromosomes by the derived header's own contig list", "kind": "derived-ranking",
+                             "lines": lines, "from_reader_args": sorted(kw), "args": list(args), "mutations": [st["m"] for st in steps], "steps": steps,
+                             "contigs": list(dc), "ranked": dr["order"]})
     if after != before:
         failures.append({"what": "mutating a header derived from a reader changed the reader's own header", "kind": "derived-aliasing",
-                         "lines": lines, "from_reader_args": sorted(kw), "mutations": [st["m"] for st in steps], "steps": steps,
+                         "lines": lines, "from_reader_args": sorted(kw), "args": list(args), "mutations": [st["m"] for st in steps], "steps": steps,
                          "changed": [k for k in before if before[k] != after[k]],
                          "before": {k: before[k] for k in before if before[k] != after[k]},
                          "after": {k: after[k] for k in before if before[k] != after[k]}})
@@ -284,6 +322,8 @@ def derived_header_cases(ctx, out, rng):
             args.append("contigs")
         if rng.random() < 0.3:
             args.append("sort_order")
+        if rng.random() < 0.5:
+            args.append("keyed-before")
         left = [rng.randrange(1, 5)]
 
         def next_step(d):
@@ -727,12 +767,12 @@ def replay_case(ctx, failure):
     lines = failure.get("lines")
     if not isinstance(lines, list):
         return None
-    if failure.get("kind") == "derived-aliasing":
+    if failure.get("kind") in ("derived-aliasing", "derived-ranking"):
         steps = failure.get("steps")
         if steps is None or "from_reader_args" not in failure:
             return None                     # written before the mutation steps were stored
         todo = [dict(st) for st in steps]
-        got, failures = eval_derived(list(lines), list(failure["from_reader_args"]), lambda d: todo.pop(0) if todo else None)
+        got, failures = eval_derived(list(lines), list(failure.get("args") or failure["from_reader_args"]), lambda d: todo.pop(0) if todo else None)
         print("replay C13: MafReader over %r (+ one data line); MafHeader.from_reader(reader%s); mutations of the derived header:" % (
             lines, "".join(", %s=..." % a for a in failure["from_reader_args"])))
         for st in got:
